@@ -356,6 +356,24 @@ def run_case(ctx, case):
         ctx.oracle("formula shape %s is not 2^N" % (tuple(f.shape),), case, cls={"op": "shape", "predicate": ocls})
     cnt = int(tab.sum())
 
+    # (a') rounding a COPY (the out-of-place helpers, "with or without intermediate rounding") gives the same truth table and leaves
+    #      the formula itself what it was: it is used again by every predicate below
+    if case["dd"] == "float64":
+        for rname in (("round", "round_tucker") if case["rounding"] in (None, "round_tt") else ("round",)):
+            fr = call("tn.%s(copy)" % rname, lambda: getattr(tn, rname)(f))
+            if fr is None:
+                continue
+            dr = call("torch() of the rounded copy", lambda: fr.torch().detach().double().numpy())
+            if dr is not None and not close(dr, tab.astype(np.float64), rtol=1e-7)[0]:
+                ctx.oracle("tn.%s(f) decompresses to something else than f's truth table" % rname, case,
+                           cls={"op": "rounded copy", "predicate": ocls})
+            d2 = call("torch() after tn.%s(f)" % rname, lambda: f.torch().detach().double().numpy())
+            if d2 is not None and not (d2.shape == d.shape and np.array_equal(d2, d)):
+                ctx.oracle("the formula itself changed when a copy of it was rounded with tn.%s" % rname, case,
+                           cls={"op": "rounded copy", "predicate": "original modified"})
+                return
+        ctx.count("rounded copies checked")
+
     # (b) sum = number of satisfying assignments
     s = call("sum", lambda: float(tn.sum(f)))
     if s is not None and not close(s, float(cnt), rtol=tol)[0]:
